@@ -249,6 +249,57 @@ func c14NilResultGuard(fd *ast.FuncDecl) (guarded, found bool, note string) {
 	return
 }
 
+// c14SortStable: concatToolCalls sorts the slice it returns. stable = every sort call applied to
+// that slice is one of the stable ones (sort.SliceStable, sort.Stable, slices.SortStableFunc);
+// sort.Slice / sort.Sort / slices.SortFunc / slices.Sort make no promise about elements that
+// compare equal (the calls without an index). found=false: no sort call on the returned slice.
+func c14SortStable(fd *ast.FuncDecl) (stable, found bool, note string) {
+	// the slice variable: first result of the last `return <ident>, nil`
+	ret := ""
+	ast.Inspect(fd.Body, func(n ast.Node) bool {
+		if _, ok := n.(*ast.FuncLit); ok {
+			return false
+		}
+		if rs, ok := n.(*ast.ReturnStmt); ok && len(rs.Results) == 2 {
+			if id, ok := rs.Results[0].(*ast.Ident); ok && id.Name != "nil" {
+				ret = id.Name
+			}
+		}
+		return true
+	})
+	if ret == "" {
+		return false, false, "no `return <slice>, nil` in concatToolCalls"
+	}
+	stableFns := map[string]bool{"sort.SliceStable": true, "sort.Stable": true, "slices.SortStableFunc": true}
+	unstableFns := map[string]bool{"sort.Slice": true, "sort.Sort": true, "slices.SortFunc": true, "slices.Sort": true}
+	var calls []string
+	stable = true
+	ast.Inspect(fd.Body, func(n ast.Node) bool {
+		c, ok := n.(*ast.CallExpr)
+		if !ok || len(c.Args) == 0 {
+			return true
+		}
+		fn := exprString(c.Fun)
+		if !stableFns[fn] && !unstableFns[fn] {
+			return true
+		}
+		arg := exprString(c.Args[0])
+		if arg != ret && !strings.Contains(arg, "("+ret+")") { // merged, or a sort.Interface wrapper around it
+			return true
+		}
+		found = true
+		calls = append(calls, fn+"("+arg+", …)")
+		if !stableFns[fn] {
+			stable = false
+		}
+		return true
+	})
+	if !found {
+		return false, false, "no sort call on the returned slice `" + ret + "`"
+	}
+	return stable, true, strings.Join(calls, ", ")
+}
+
 func factsC14(r *Repo) []Fact {
 	var out []Fact
 	ip := r.Pkg("internal")
@@ -424,6 +475,18 @@ func factsC14(r *Repo) []Fact {
 		for _, n := range []string{"tcIdCheck", "tcTypeCheck", "tcNameCheck"} {
 			out = append(out, unknownFact(n, "Bool", "false", "schema/message.go", "func concatToolCalls not found"))
 		}
+	}
+
+	// ---- the final sort of concatToolCalls is stable ----
+	if fd, file := sp.Func("", "concatToolCalls"); fd != nil && fd.Body != nil {
+		st, found, note := c14SortStable(fd)
+		if found {
+			out = append(out, boolFact("tcSortStable", st, "schema/"+file+": concatToolCalls sorts the merged tool calls with a stable sort, so that calls without an index (which all compare equal) keep their arrival order ("+note+")"))
+		} else {
+			out = append(out, unknownFact("tcSortStable", "Bool", "false", "schema/"+file+": concatToolCalls", note))
+		}
+	} else {
+		out = append(out, unknownFact("tcSortStable", "Bool", "false", "schema/message.go", "func concatToolCalls not found"))
 	}
 	return out
 }
